@@ -213,9 +213,23 @@ fn throttle_model(op: &Op, edge: Edge, script: &[(u64, N)]) -> Vec<Timed> {
 /// exact sample(interval(w)) semantics: at every sampler tick the newest item
 /// not yet sampled is emitted; branches where an item coincides with a tick;
 /// a value still unsampled when the source completes may be dropped or flushed
-fn sample_model(w: u64, script: &[(u64, N)]) -> Vec<Timed> {
+///
+/// With `observed` the search only follows branches whose output so far is a
+/// prefix of the observed trace (membership test, no cap needed); without it
+/// the enumeration is capped and only used to *show* some allowed traces.
+fn sample_model(w: u64, script: &[(u64, N)], observed: Option<&Timed>) -> Vec<Timed> {
+  thread_local! {
+    static OBSERVED: std::cell::RefCell<Option<Timed>> = const { std::cell::RefCell::new(None) };
+  }
+  fn viable(out: &Timed) -> bool {
+    OBSERVED.with(|o| match &*o.borrow() {
+      None => true,
+      Some(obs) => out.len() <= obs.len() && obs[..out.len()] == out[..],
+    })
+  }
   fn go(w: u64, script: &[(u64, N)], i: usize, next_tick: u64, stored: Option<V>, out: Timed, acc: &mut Vec<Timed>) {
-    if acc.len() > 256 {
+    let capped = OBSERVED.with(|o| o.borrow().is_none());
+    if (capped && acc.len() > 256) || !viable(&out) {
       return;
     }
     if i == script.len() {
@@ -271,7 +285,9 @@ fn sample_model(w: u64, script: &[(u64, N)]) -> Vec<Timed> {
     let _ = n;
   }
   let mut acc = vec![];
+  OBSERVED.with(|o| *o.borrow_mut() = observed.cloned());
   go(w, script, 0, w, None, vec![], &mut acc);
+  OBSERVED.with(|o| *o.borrow_mut() = None);
   acc.sort();
   acc.dedup();
   acc
@@ -349,7 +365,15 @@ pub fn judge(c: &Case, o: &Result<Obs, String>) -> Option<(String, serde_json::V
       Op::Debounce(d) => Some(debounce_model(*d * MS, &c.script)),
       Op::ThrottleTime(_, e) | Op::Throttle(_, e) => Some(throttle_model(&c.op, *e, &c.script)),
       Op::Sample(ch) => match ch.src {
-        Src::Interval(w) if c.script.last().map_or(false, |(_, n)| n.is_terminal()) => Some(sample_model(w * MS, &c.script)),
+        Src::Interval(w) if c.script.last().map_or(false, |(_, n)| n.is_terminal()) => {
+          // membership by a search pruned with the observed trace (the full set grows
+          // exponentially with the number of item/tick coincidences)
+          if sample_model(w * MS, &c.script, Some(&o.timed)).contains(&o.timed) {
+            None
+          } else {
+            Some(sample_model(w * MS, &c.script, None))
+          }
+        }
         _ => None,
       },
       _ => None,
